@@ -491,18 +491,20 @@ impl Engine for RecvEngine {
                 let toi: u128 = t[2].parse().unwrap_or(0);
                 let h = self.hist.get(&toi).cloned().unwrap_or_default();
                 let cls = t.get(5).copied().unwrap_or("C19");
+                // `Cxx` -> classes `Cxx:not-delivered` ...; `Cxx:token` -> that exact class
+                let full = |suffix: &str| if cls.contains(':') { cls.to_string() } else { format!("{}:{}", cls, suffix) };
                 match t[3] {
                     "c" => {
                         let len: u64 = t.get(4).and_then(|x| x.parse().ok()).unwrap_or(0);
                         if h.complete == 0 {
-                            o.fail(&format!("{}:not-delivered", cls), &format!("TOI {} expected complete, history new={} complete={} error={} interrupted={}", toi, h.new, h.complete, h.error, h.interrupted));
+                            o.fail(&full("not-delivered"), &format!("TOI {} expected complete, history new={} complete={} error={} interrupted={}", toi, h.new, h.complete, h.error, h.interrupted));
                         } else if h.bytes != len * h.complete as u64 && h.error == 0 && h.interrupted == 0 {
-                            o.fail(&format!("{}:wrong-length", cls), &format!("TOI {} delivered {} bytes, expected {}", toi, h.bytes, len));
+                            o.fail(&full("wrong-length"), &format!("TOI {} delivered {} bytes, expected {}", toi, h.bytes, len));
                         }
                     }
                     "s" => {
                         if h.new + h.complete + h.error + h.interrupted != 0 {
-                            o.fail(&format!("{}:expired-not-silent", cls), &format!("TOI {} announced only by expired FDT instances: new={} complete={} error={} interrupted={}", toi, h.new, h.complete, h.error, h.interrupted));
+                            o.fail(&full("expired-not-silent"), &format!("TOI {} announced only by expired FDT instances: new={} complete={} error={} interrupted={}", toi, h.new, h.complete, h.error, h.interrupted));
                         }
                     }
                     _ => return "bad-op".into(),
